@@ -993,6 +993,11 @@ func main() {
 		// not by the version that is active now)
 		cases = append(cases, []string{"case 1003", "start", "schema K1", "p2pcol add K1", `create K1 d1 {"name": "v1", "n": 1}`, "patch K1 extra1", "dump", "restart", "dump",
 			`create K1 d2 {"name": "v2", "n": 2}`, "patch K1 extra2", "restart", "dump"})
+		// directed: documents written before their collection becomes a P2P collection (they are announced on a topic
+		// joined for one message; the later subscription needs that topic to have been left again)
+		cases = append(cases, []string{"case 1005", "start", "schema K3", `create K3 d1 {"a": "v1", "b": 0}`, "txschema K2", "schema K2", "patch K3 email", `create K3 d2 {"a": "v2", "b": 7}`,
+			"schema K1", `create K1 d3 {"name": "v3", "n": 7}`, "p2pcol add K1", "crashcopy", "restart", "dump", "index K1 name 0", `create K1 d4 {"n": 999}`, "schema K4", "dump"})
+		cases = append(cases, []string{"case 1007", "start", "schema K1", `create K1 d1 {"name": "v1", "n": 1}`, `create K1 d2 {"name": "v2", "n": 2}`, "p2pcol add K1", "dump", "restart", "dump"})
 		for i := 0; i < n; i++ {
 			cr, _ := r.Fork()
 			cases = append(cases, genCase(cr, uint64(i+3)))
